@@ -19,7 +19,10 @@ def _run_check(prop, tier):
     try:
         proj = model.project()
         mod.run(rep, proj, tier)
-        return report.finish(rep, seed)
+        rc = report.finish(rep, seed)
+        if rc == 0 and tier == "thorough" and not os.environ.get("YADSA_SELFTEST"):
+            rc = _thorough_selftest(prop)
+        return rc
     except model.AnalysisError as e:
         print(f"ANALYSIS-ERROR {prop}: {e}")
         return 2
@@ -27,6 +30,38 @@ def _run_check(prop, tier):
         traceback.print_exc()
         print(f"ANALYSIS-ERROR {prop}: internal error in the checker (traceback above)")
         return 2
+
+
+def _thorough_selftest(prop):
+    """Thorough tier: the property's mutant / benign-twin corpus (quick check on scratch copies)."""
+    from . import report
+    from .selftest import runner
+
+    res = runner.run_corpus([prop], jobs=8)
+    summ = runner.summarise(res)
+    mutants = [r for r in res if r["kind"] == "M" and r["status"] != "skipped"]
+    killed = [r for r in mutants if r["status"] == "killed"]
+    twins = [r for r in res if r["kind"] == "B" and r["status"] != "skipped"]
+    silent = [r for r in twins if r["status"] == "silent"]
+    print(f"[{prop}] selftest: {len(killed)}/{len(mutants)} mutants killed, {len(silent)}/{len(twins)} benign twins silent, "
+          f"{summ.get('skipped', 0)} skipped (anchor text gone)")
+    ev_path = report.EVIDENCE / f"{prop}.json"
+    try:
+        ev = json.load(open(ev_path))
+        ev["coverage"]["selftest"] = dict(mutants=len(mutants), killed=len(killed), benign_twins=len(twins), silent=len(silent),
+                                          skipped=summ.get("skipped", 0),
+                                          not_killed=[r["id"] for r in mutants if r["status"] != "killed"],
+                                          false_alarms=[r["id"] for r in twins if r["status"] != "silent"])
+        json.dump(ev, open(ev_path, "w"), indent=1, default=str)
+    except (OSError, ValueError, KeyError):
+        pass
+    if mutants and len(killed) * 3 < len(mutants) * 2:
+        print(f"ANALYSIS-ERROR {prop}: fewer than two thirds of the mutant corpus is detected: the checker has lost its teeth")
+        return 2
+    if len(silent) < len(twins):
+        print(f"ANALYSIS-ERROR {prop}: a behaviour-preserving twin raises an alarm: the checker is not sound for refactorings")
+        return 2
+    return 0
 
 
 def main(argv=None):
